@@ -17,10 +17,12 @@ func runC14(opt *Options) int {
 	}
 	lr := &laRun{
 		Opt:  opt,
-		Pkgs: []string{"method", "pkgload"},
+		Pkgs: []string{"method", "pkgload", "config"},
 		Kernels: []layera.Kernel{
 			// which parameters of a custom function are contexts by its own doc comment (goverter:context NAME)
 			{Name: "K7.localconfig", Pkg: "pkgload", Harness: "VerifHarness_C19_LocalConfig", Unwind: 64},
+			// with which arg:context:regex and against which output package the custom functions of a converter, and its methods, are classified
+			kernelConverterLines("c14"),
 			{Name: "K4.parse", Pkg: "method", Harness: "VerifHarness_C14_Parse", Unwind: 16, MaxPaths: 30000000, Workers: 16, SetInts: map[string]int{"VerifC14MaxParams": maxParams, "VerifC14WideRegexParams": wideParams}},
 			{Name: "K4.notafunction", Pkg: "method", Harness: "VerifHarness_C14_NotAFunction", Unwind: 16},
 		},
